@@ -35,8 +35,8 @@ TOL_WIN_DESIGN = 1e-13  # stored window vs documented firwin design, relative to
 TOL_WIN_SINC = 1e-11    # stored window vs hand-written windowed sinc, relative to max|w|
 
 TAPS = [1, 2, 3, 4]
-BRANCHES_Q = [2, 4, 6, 8, 14, 16]       # 14, 22, 26: transform lengths with a prime factor > 5
-BRANCHES_T = [2, 4, 6, 8, 10, 12, 14, 16, 22, 26, 32]
+BRANCHES_Q = [2, 3, 4, 6, 7, 8, 14, 16]       # 14, 22, 26: transform lengths with a prime factor > 5; 3, 7, 15: odd branch counts
+BRANCHES_T = [2, 3, 4, 5, 6, 7, 8, 10, 12, 14, 15, 16, 22, 26, 32]
 WINDOWS_Q = ['hamming', 'hann', 'boxcar', 'blackman']
 WINDOWS_T = WINDOWS_Q + ['bartlett', 'blackmanharris', ['kaiser', 8.0]]
 BIG_Q = [(8, 64, 'hamming'), (4, 128, 'hann')]                       # realistic sizes, short streams
@@ -95,8 +95,8 @@ def _preamble(M, P, win):
     other = 'boxcar' if win != 'boxcar' else 'hamming'
     # also objects with the same coefficient count M*P but a different taps/branches split and the SAME window
     # (something memoised on (M*P, window) instead of (M, P, window) is then poisoned deterministically)
-    for (m2, p2) in ((2 * M, P // 2), (M // 2, 2 * P), (M * P // 2, 2), (1, M * P)):
-        if m2 >= 1 and p2 >= 2 and p2 % 2 == 0 and m2 * p2 == M * P and (m2, p2) != (M, P):
+    for (m2, p2) in ((2 * M, P // 2), (M // 2, 2 * P), (M * P // 2, 2), (1, M * P), (3 * M, P // 3), (M // 3, 3 * P)):
+        if m2 >= 1 and p2 >= 2 and m2 * p2 == M * P and (m2, p2) != (M, P):
             try:
                 _new(m2, p2, win)
             except Exception:
@@ -404,6 +404,7 @@ def case_pair(c):
         viol.append({'site': site, 'failure': failure, 'detail': detail})
     cmp_ = Cmp(V)
     decoy = _preamble(c['A']['M'], c['A']['P'], c['A']['win'])
+    decoy_b = _preamble(c['B']['M'], c['B']['P'], c['B']['win'])
     cfg = {}
     for name, salt in (('A', 11), ('B', 12)):
         M, P, win, kind, cw = c[name]['M'], c[name]['P'], c[name]['win'], c[name]['kind'], c[name]['c']
